@@ -14,6 +14,7 @@ import (
 	"os"
 	"path/filepath"
 	"strings"
+	"syscall"
 	"time"
 
 	"github.com/ErdemOzgen/blackdagger/internal/agent"
@@ -33,6 +34,10 @@ type ParamScenario struct {
 	AtStart  bool        `json:"atStart"` // given with the start (-p) instead of as the DAG's default
 	Payload  string      `json:"payload"` // output payload class
 	ErrNoise bool        `json:"errNoise"`
+	// Stop: the producing step repeats (every iteration prints the payload and its own number); the run is asked to stop
+	// while the second iteration is executing. A repeating step is not signalled: it finishes the iteration, and what
+	// that iteration printed is the step's output - for the exit handler of the stopped run and for the retry.
+	Stop bool `json:"stop"`
 }
 
 var ParamValues = map[string]string{
@@ -131,7 +136,15 @@ func RunParams(self string, sc ParamScenario, base string) Ev {
 	}
 	y += "handlerOn:\n  exit:\n    command: " + probe("exit") + "\n"
 	y += "steps:\n"
-	y += "  - name: prod\n    command: " + self + " payload -class " + sc.Payload + noise + "\n    output: OUTV\n"
+	counter := filepath.Join(dir, "counter")
+	if sc.Stop {
+		script := filepath.Join(dir, "prod.sh")
+		os.WriteFile(script, []byte(fmt.Sprintf("n=$(cat %s 2>/dev/null || echo 0)\nn=$((n+1))\necho $n > %s.tmp && mv %s.tmp %s\nsleep 0.4\n%s payload -class %s%s\necho \"#$n\"\n",
+			counter, counter, counter, counter, self, sc.Payload, noise)), 0o755)
+		y += "  - name: prod\n    command: sh " + script + "\n    output: OUTV\n    repeatPolicy:\n      repeat: true\n      intervalSec: 0\n"
+	} else {
+		y += "  - name: prod\n    command: " + self + " payload -class " + sc.Payload + noise + "\n    output: OUTV\n"
+	}
 	y += "  - name: first\n    command: " + probe("first") + "\n    depends: [prod]\n"
 	y += "  - name: gate\n    command: test -f " + filepath.Join(dir, "open") + "\n    depends: [first]\n"
 	y += "  - name: after\n    command: " + probe("after") + "\n    depends: [gate]\n"
@@ -161,11 +174,33 @@ func RunParams(self string, sc ParamScenario, base string) Ev {
 	a := agent.New(req1, d, quietLogger, filepath.Join(dir, "logs"), filepath.Join(dir, "logs", "a1.log"), cli, ds, &agent.Options{})
 	runErr := make(chan error, 1)
 	go func() { runErr <- a.Run(context.Background()) }()
+	if sc.Stop {
+		rec["kind"] = "stop"
+		deadline := time.Now().Add(20 * time.Second)
+		for {
+			b, _ := os.ReadFile(counter)
+			if strings.TrimSpace(string(b)) == "2" {
+				break
+			}
+			if time.Now().After(deadline) {
+				rec["infra"] = "the second iteration does not start"
+				return rec
+			}
+			time.Sleep(5 * time.Millisecond)
+		}
+		a.Signal(syscall.SIGTERM)
+	}
 	select {
 	case <-runErr:
 	case <-time.After(20 * time.Second):
 		rec["infra"] = "run 1 does not end"
 		return rec
+	}
+	iter := ""
+	if sc.Stop {
+		b, _ := os.ReadFile(counter)
+		iter = strings.TrimSpace(string(b))
+		rec["iterations"] = iter
 	}
 	// ---- what was recorded
 	sf, err := ds.HistoryStore().FindByRequestID(file, req1)
@@ -208,11 +243,17 @@ func RunParams(self string, sc ParamScenario, base string) Ev {
 		}
 	}
 	want["OUTV"] = strings.TrimSpace(PayloadValues[sc.Payload])
+	tags := []string{"first.1", "exit.1", "after.2", "exit.2"}
+	if sc.Stop {
+		// the last iteration that ran printed payload + "#<its number>"
+		want["OUTV"] = strings.TrimSpace(PayloadValues[sc.Payload] + "#" + iter)
+		tags = []string{"exit.1", "first.2", "after.2", "exit.2"}
+	}
 	if argSafe[sc.Payload] {
 		want["ARG_OUTV"] = want["OUTV"]
 	}
 	probes := Ev{}
-	for _, tag := range []string{"first.1", "exit.1", "after.2", "exit.2"} {
+	for _, tag := range tags {
 		b, err := os.ReadFile(filepath.Join(dir, tag+".json"))
 		if err != nil {
 			probes[strings.ReplaceAll(tag, ".", "_")] = Ev{"missing": true, "bad": []string{}}
